@@ -12,8 +12,8 @@ N (oracles named by the property): dense <psi|H|psi> of the returned state = las
 import numpy as np
 
 from .. import common, sweepgen
-from ..parallel import validate_chunks
-from .c08 import INV
+from ..parallel import validate_chunks, pmap
+from .c08 import INV, sweep_models
 
 
 def gen_case(rng):
@@ -25,7 +25,8 @@ def gen_case(rng):
                 repeat=bool(rng.random() < 0.3), shift=bool(rng.random() < 0.3), seed=int(rng.integers(1 << 30)))
 
 
-def record(ptn, c):
+def record(c):
+    ptn = common.import_repo()
     rng = np.random.default_rng(c['seed'])
     try:
         H = sweepgen.make_hamiltonian(ptn, rng, c['L'], c['kind'])
@@ -61,15 +62,9 @@ def run(ctx):
                 '{2,3,5,25}; non-trivial = run whose energy decreases; distinct = distinct seed')
     ctx.assumptions += ['kernel contract: lowest Ritz value <= Rayleigh quotient of the start vector (observed per local problem)',
                         'mode-N bounds 1e-9 ||H|| (consistency 1e-8 ||H||, exact ground state 1e-7 ||H||)']
-    for alg in ('dmrg1', 'dmrg2'):
-        for L in (2, 3, 4, 5, 6):
-            for n in ([1, 2] if ctx.quick else [1, 2, 3]):
-                ctx.model('Sweep', f'm_{alg}_L{L}_n{n}', constants=dict(L=L, NSTEPS=n, Alg=f'"{alg}"', Bug='"none"'), invariants=INV, workers=1,
-                          coverage=(L == 4 and n == 1))
-    ctx.model('Sweep', 'm_neg_skip_envl', constants=dict(L=4, NSTEPS=2, Alg='"dmrg1"', Bug='"skip_envl"'), invariants=['WellPosed'], workers=1,
-              expect_violation='WellPosed')
-    cases = [ctx.replay['replay']['case']] if ctx.replay is not None else [gen_case(rng) for _ in range(ctx.pick(120, 3000))]
-    traces = [record(ptn, c) for c in cases]
+    sweep_models(ctx, ['dmrg1', 'dmrg2'])
+    cases = [ctx.replay['replay']['case']] if ctx.replay is not None else [gen_case(rng) for _ in range(ctx.pick(300, 3000))]
+    traces = pmap(record, cases)
     for c, tr in zip(cases, traces):
         ens = [float.fromhex(r['en']) for r in tr if r.get('ev') == 'local' and r.get('en')]
         ctx.count(c, nontrivial=bool(len(ens) >= 2 and ens[-1] < ens[0] - 1e-9))
